@@ -117,6 +117,63 @@ func genPart(cfg Config, emit func(string, bool, []string)) {
 		}
 		g.emit("new %d", ro)
 		g.addVer(-1)
+		if c%8 == 3 {
+			// threshold walker: one child removed (or added) per transaction across each
+			// node-size boundary, with watches on the node taken just before
+			stem := [][]byte{{}, {'s'}, {0, 0xff}}[r.IntN(3)]
+			withLeaf := r.IntN(2) == 0
+			top := []int{52, 19, 7}[r.IntN(3)]
+			g.emit("txn 0")
+			if withLeaf && len(stem) > 0 {
+				g.emit("ins %s 1", hx(stem))
+			}
+			var kids []byte
+			for i := 0; i < top; i++ {
+				b := byte(3*i + 1)
+				kids = append(kids, b)
+				g.emit("ins %s %d", hx(append(append([]byte{}, stem...), b)), i)
+			}
+			g.emit("commit")
+			g.addVer(0)
+			g.head = g.nvers - 1
+			g.emit("notify")
+			r.Shuffle(len(kids), func(i, j int) { kids[i], kids[j] = kids[j], kids[i] })
+			for i := 0; i < 7 && i < len(kids); i++ {
+				base := g.head
+				g.emit("vprefix %d %s", base, hx(stem))
+				g.emit("vget %d %s", base, hx(append(append([]byte{}, stem...), 0xfe)))
+				g.emit("vget %d %s", base, hx(append(append([]byte{}, stem...), kids[i])))
+				g.emit("vrootwatch %d", base)
+				g.emit("txn %d", base)
+				g.emit("del %s", hx(append(append([]byte{}, stem...), kids[i])))
+				g.emit("dump")
+				g.emit("commit")
+				g.addVer(base)
+				g.head = g.nvers - 1
+				g.emit("closed")
+				g.emit("notify")
+				g.emit("closed")
+				g.emit("viter %d", base)
+			}
+			// and back up
+			for i := 0; i < 4; i++ {
+				base := g.head
+				g.emit("vprefix %d %s", base, hx(stem))
+				g.emit("txn %d", base)
+				g.emit("ins %s %d", hx(append(append([]byte{}, stem...), byte(200+i))), i)
+				g.emit("commit")
+				g.addVer(base)
+				g.head = g.nvers - 1
+				g.emit("notify")
+				g.emit("closed")
+			}
+			for v := 0; v < g.nvers; v++ {
+				g.emit("viter %d", v)
+				g.emit("vlen %d", v)
+			}
+			emit(fmt.Sprintf("part walker top=%d rootonly=%d", top, ro), true, g.ops)
+			continue
+		}
 		ntx := 1 + r.IntN(maxTxns)
 		for t := 0; t < ntx; t++ {
 			base := g.head
@@ -133,6 +190,21 @@ func genPart(cfg Config, emit func(string, bool, []string)) {
 					g.emit("vprefix %d %s", base, hx(k))
 				case 2:
 					g.emit("vrootwatch %d", base)
+				}
+			}
+			if c%6 == 1 || g.mode == 0 {
+				// watch the inner nodes of the dense fan-outs: prefix watches on the stems and
+				// Get of absent keys below them resolve to those nodes' channels
+				for _, stem := range [][]byte{{}, {'a'}, {'a', 'b'}, {0}} {
+					if r.IntN(2) == 0 {
+						g.emit("vprefix %d %s", base, hx(stem))
+					}
+					if r.IntN(3) == 0 {
+						g.emit("vget %d %s", base, hx(append(append([]byte{}, stem...), 0xfe, 0xfe)))
+					}
+				}
+				if r.IntN(2) == 0 {
+					g.emit("vprefix %d %s", base, hx([]byte{byte(r.IntN(256))}))
 				}
 			}
 			if r.IntN(8) == 0 && base == g.head {
